@@ -188,10 +188,7 @@ class ASTSchemaPrinter:
     ) -> str:
         if not field_or_enum_value.deprecated:
             return ""
-        elif (
-            not field_or_enum_value.deprecation_reason
-            or field_or_enum_value.deprecation_reason == DEFAULT_DEPRECATION
-        ):
+        elif field_or_enum_value.deprecation_reason == DEFAULT_DEPRECATION:
             return " @deprecated"
         return " @deprecated(reason: %s)" % print_ast(
             ast_node_from_value(field_or_enum_value.deprecation_reason, String)
